@@ -334,12 +334,18 @@ func (gi *ginfo) parked() bool {
 	return false
 }
 
+var qdebug = os.Getenv("C07_QDEBUG") != ""
+
 var errNotQuiescent = errors.New("not quiescent")
 
-// quiesce waits until every goroutine but the caller is parked and returns that snapshot. The 30 s bound is
+// quiesce waits until every goroutine but the caller is parked and returns that snapshot. The bound (2500 snapshots, >= 2 minutes) is
 // a watchdog only (the dump is written to /tmp/c07_sched_hang.txt).
 func quiesce() ([]ginfo, error) {
-	deadline := time.Now().Add(30 * time.Second)
+	// The watchdog counts snapshots, not wall-clock time: after the ramp every snapshot is preceded by a 50 ms
+	// pause, so 2500 of them are two minutes in which the program was given the processor 2500 times. A stall of
+	// the whole machine (the sandbox is a virtual machine: both of two concurrent checks once lost ~30 s at the
+	// same moment) is then one long pause, not an expired deadline.
+	start := time.Now()
 	for spin := 0; ; spin++ {
 		runtime.Gosched()
 		self, gs, dump := snapshot()
@@ -353,19 +359,31 @@ func quiesce() ([]ginfo, error) {
 		if ok {
 			return gs, nil
 		}
-		if time.Now().After(deadline) {
+		if spin >= 2500 {
 			os.WriteFile("/tmp/c07_sched_hang.txt", []byte(dump), 0o644)
 			return gs, errNotQuiescent
+		}
+		if qdebug && spin > 200 && spin%200 == 0 {
+			for i := range gs {
+				if gs[i].id != self && !gs[i].parked() {
+					top := "?"
+					if len(gs[i].funcs) > 0 {
+						top = gs[i].funcs[0]
+					}
+					fmt.Fprintf(os.Stderr, "qdebug spin=%d t=%v g=%d [%s] %s\n", spin, time.Since(start), gs[i].id, gs[i].state, top)
+				}
+			}
 		}
 		// Every snapshot stops the world. A goroutine that is runnable needs a thread to be woken for it after the
 		// world restarts; when the next snapshot follows too quickly the thread finds the world stopping again and
 		// the goroutine never runs (seen as 30 s of "runnable" with 1 MiB frames). So the pause between snapshots
-		// grows while the program is not quiescent (20 us ... 2 ms); pauses do not decide anything, they only
-		// leave the processor to the program.
+		// grows while the program is not quiescent (20 us ... 50 ms; on a machine whose processors are
+		// oversubscribed a woken thread may have to wait several milliseconds for a processor); pauses do not
+		// decide anything, they only leave the processor to the program.
 		if spin > 8 {
-			d := 20 * time.Microsecond << uint((spin-8)/8)
-			if d > 2*time.Millisecond || d <= 0 {
-				d = 2 * time.Millisecond
+			d := 50 * time.Millisecond
+			if k := uint((spin - 8) / 6); k < 12 {
+				d = 20 * time.Microsecond << k // 20 us, 40 us, ... 41 ms
 			}
 			time.Sleep(d)
 		}
